@@ -212,6 +212,8 @@ void harness::run_case(const eng::Raw& raw, eng::Ctx& ctx)
 	gen::Limits lim;
 	lim.maxStates = ctx.tier() ? 5 : 4;
 	lim.arity3 = true;
+	lim.overload = true;
+	lim.fanoutEvery = 8;
 	//                          indep sup abl split leaf detB degen
 	const std::vector<int> w = {3,    2,  4,  6,    2,   2,   1};
 	gen::PairCase c = gen::decode_pair(raw, lim, w);
